@@ -1,19 +1,24 @@
 pub mod c01;
+pub mod c05;
 pub mod c06;
 pub mod c07;
 pub mod c10;
 pub mod c13;
 pub mod c14;
+pub mod c17;
 pub mod c18;
 pub mod c19;
 pub mod c20;
+pub mod single;
 pub mod table;
+pub mod universal;
 
 use crate::common::*;
 
 pub fn run(id: &str, tier: Tier) -> Option<Report> {
     Some(match id {
         "C01" => c01::run(tier),
+        "C05" => c05::run(tier),
         "C06" => {
             let mut rep = Report::new("C06", "model_checking", tier);
             c06::run(tier, &mut rep);
@@ -46,10 +51,17 @@ pub fn run(id: &str, tier: Tier) -> Option<Report> {
         }
         "C13" => c13::run(tier),
         "C14" => c14::run(tier),
+        "C17" => c17::run(tier),
         "C18" => c18::run(tier),
         "C19" => {
             let mut rep = Report::new("C19", "model_checking", tier);
             c19::run(tier, &mut rep);
+            let (runs, checked, viol) = universal::tid_monitor(tier);
+            rep.set("wire_monitor_runs", runs);
+            rep.set("wire_queries_checked", checked);
+            for (sig, what, replay) in viol {
+                rep.violation(sig, what, replay);
+            }
             finalize_counts(&mut rep);
             rep
         }
@@ -61,6 +73,7 @@ pub fn run(id: &str, tier: Tier) -> Option<Report> {
 pub fn replay(id: &str, v: &serde_json::Value) -> i32 {
     match id {
         "C01" => c01::replay(v),
+        "C05" => c05::replay(v),
         "C06" => c06::replay(v),
         "C07" => c07::replay(v),
         "C08" => {
@@ -70,6 +83,7 @@ pub fn replay(id: &str, v: &serde_json::Value) -> i32 {
         "C10" => c10::replay(v),
         "C13" => c13::replay(v),
         "C14" => c14::replay(v),
+        "C17" => c17::replay(v),
         "C18" => c18::replay(v),
         "C19" => c19::replay(v),
         "C20" => c20::replay(v),
@@ -94,4 +108,9 @@ pub fn finalize_counts(rep: &mut Report) {
         let t = rep.get("transitions");
         rep.set("traces_validated_against_impl", t);
     }
+}
+
+/// Scenario sets contributed to the universal monitors by properties built later.
+pub fn extra_universal_sets(_tier: Tier) -> Vec<universal::Entry> {
+    vec![]
 }
